@@ -459,8 +459,12 @@ def run_c14(case):
                     it = op.get("iteration")
                     sim.reseed(H(case["rng"], "op", step))
                     sim.begin_op()
+                    nb_probe = len(builds[i]["probe"].calls)
                     try:
                         la = float(builds[i]["cond"](device="cpu", iteration=it))
+                        if specs[i]["kind"] == "periodic" and not (specs[i].get("sampler") or {}).get("static"):
+                            # (d) left and right data each on their own side (C04's oracle for this evaluation)
+                            check_eval(builds[i], la, nb_probe, out, stats, prop="C14")
                     except Exception as ex:
                         la = ("raises", type(ex).__name__, innermost_site(ex.__traceback__), str(ex)[:120])
                     sim.reseed(H(case["rng"], "op", step))
